@@ -778,6 +778,12 @@ class Interp(Exec):
             if isinstance(op, ast.Add): return mk(x + y)
             if isinstance(op, ast.Sub): return mk(x - y)
             if isinstance(op, ast.Mult): return mk(x * y)
+            if isinstance(op, ast.Div):
+                xr = z3.ToReal(x) if not real else x
+                yr = z3.ToReal(y) if not real else y
+                if not self.spec_mode and not self.branch(yr != 0):
+                    raise PyRaise(VExc("ZeroDivisionError", []))
+                return VReal(xr / yr)
             if isinstance(op, ast.FloorDiv) and not real:
                 if not self.spec_mode and not self.branch(y != 0):
                     raise PyRaise(VExc("ZeroDivisionError", []))
